@@ -81,7 +81,51 @@ let assign l tg i = match tg with
   | TRow r -> layer_set_row_style idz l r i
   | TCol c -> layer_set_column_style idz idz l c i
 
+(* ---- L lines: a history of attribute operations on the style layer ------------------------------- *)
+let lop_of k a b = match k with
+  | 0 -> LCell (z_of_int a, z_of_int (b / 10), z_of_int (b mod 10))
+  | 1 -> LRowStyle (z_of_int a, z_of_int b)
+  | 2 -> LColStyle (z_of_int a, z_of_int b)
+  | 3 -> LRowHeight (z_of_int a, z_of_int b)
+  | 4 -> LRowHidden (z_of_int a, b <> 0)
+  | 5 -> LRowDel (z_of_int a)
+  | 6 -> LColWidth (z_of_int a, z_of_int b)
+  | 7 -> LColHidden (z_of_int a, b <> 0)
+  | _ -> LColDel (z_of_int a)
+
+let handle_layer r =
+  let (rr, r) = (match r with a :: r -> (zi a, r) | [] -> raise Not_found) in
+  let (cc, r) = (match r with a :: r -> (zi a, r) | [] -> raise Not_found) in
+  let r = expect "cells" r in let (n, r) = count r in
+  let (cells, r) = many n (function a :: b :: c :: r -> (((zi a, zi b), zi c), r) | _ -> raise Not_found) r [] in
+  let r = expect "rows" r in let (n, r) = count r in
+  let (rows, r) = many n (function a :: b :: c :: d :: e :: f :: r ->
+      ({ r_r = zi a; r_height = zi b; r_custom_format = (c = "1"); r_custom_height = (d = "1"); r_s = zi e; r_hidden = (f = "1") }, r)
+    | _ -> raise Not_found) r [] in
+  let r = expect "cols" r in let (n, r) = count r in
+  let (cols, r) = many n (function a :: b :: c :: d :: e :: f :: r ->
+      ({ c_min = zi a; c_max = zi b; c_width = zi c; c_custom = (d = "1"); c_hidden = (e = "1");
+         c_style = (let t = ios f in if t = 0 then None else Some (z_of_int (t - 1))) }, r)
+    | _ -> raise Not_found) r [] in
+  let r = expect "ops" r in let (n, r) = count r in
+  let (ops, r) = many n (function a :: b :: c :: r -> (lop_of (ios a) (ios b) (ios c), r) | _ -> raise Not_found) r [] in
+  let r = expect "probes" r in let (n, r) = count r in
+  let (probes, _) = many n (function a :: b :: r -> ((zi a, zi b), r) | _ -> raise Not_found) r [] in
+  let obs = Buffer.create 256 in
+  let add s = (if Buffer.length obs > 0 then Buffer.add_char obs ' '); Buffer.add_string obs s in
+  let _ = List.fold_left (fun l o ->
+    let (ok, l') = (match apply_lop idz idz l o with Ok l' -> (1, l') | _ -> (0, l)) in
+    add (string_of_int ok);
+    List.iter (fun (pr, pc) ->
+      add (Printf.sprintf "%d %d" (int_of_z (get_cell_style_index l' pr pc))
+             (match get_cell_style_or_none l' pr pc with Some i -> int_of_z i + 1 | None -> 0))) probes;
+    add (Printf.sprintf "%d %d" (match get_row_style l'.l_rows rr with Some i -> int_of_z i + 1 | None -> 0)
+           (match style_at l'.l_cols cc with Some i -> int_of_z i + 1 | None -> 0));
+    l') { l_cells = cells; l_rows = rows; l_cols = cols } ops in
+  Buffer.contents obs
+
 let handle f = match f with
+  | "L" :: r -> handle_layer r
   | "h" :: r ->
     let (st, r) = parse_pools r in
     let (pre, r) = (match r with p :: r -> (zi p, r) | [] -> raise Not_found) in
